@@ -244,8 +244,29 @@ axiom trailerData := len(trailerMagicData) == 8
 pred rdB(r *Reader) := ite(r.ra != nil, mData[r.ra], fData[r.r])
 pred rdL(r *Reader) := ite(r.ra != nil, mSize[r.ra], fSize[r.r])
 
+// ---- the record abstraction is DEFINED from the bytes (C07/C11/C12/C14 rest on it): the records of a file are the
+// maximal chain of complete valid records after the header; everything the abstraction says about record k is
+// what the documented layout says about the bytes at recPos(f,k). These definitions are satisfiable for every
+// file, so assuming them (in the `when` condition of `implements`) is a conservative extension, not a restriction on the files.
+ghost var gBytes map[int]map[int]int   // bytes of the file with content id f
+ghost var gLen map[int]int             // its length
+pred rdLink(r *Reader) := rdB(r) == gBytes[r.gfile] && rdL(r) == gLen[r.gfile]
+pred absV2(f int) :=
+    (forall k :: 0 <= k && k < recN(f) ==>
+        validV2(gBytes[f], gLen[f], recPos(f, k))
+        && recPos(f, k + 1) == recPos(f, k) + 36 + ksV2(gBytes[f], recPos(f, k)) + vsV2(gBytes[f], recPos(f, k))
+        && recOffset(f, k) == s64(be64(gBytes[f], recPos(f, k) + 4))
+        && recMicro(f, k) == s64(be64(gBytes[f], recPos(f, k) + 12))
+        && recKey(f, k) == range(gBytes[f], recPos(f, k) + 28, ksV2(gBytes[f], recPos(f, k)))
+        && recValue(f, k) == range(gBytes[f], recPos(f, k) + 28 + ksV2(gBytes[f], recPos(f, k)), vsV2(gBytes[f], recPos(f, k))))
+    && !validV2(gBytes[f], gLen[f], recPos(f, recN(f)))
+    && recPos(f, recN(f)) <= gLen[f]
+    && (tailClean(f) <==> recPos(f, recN(f)) == gLen[f])
+
 func (*Reader).readV2
     flags overflow
+    // readV2 is the function behind the field Reader.reader of a V2 reader (installed by OpenReader, I/O, assumed)
+    implements Reader.reader when r.v == V2 && rdLink(r) && absV2(r.gfile) && wfFile(r.gfile)
     // machine bound: file sizes stay below 2^62 (positions are int64)
     requires[size] rdL(r) <= 4611686018427387904
     requires position >= 0 && isBytes(rdB(r)) && rdL(r) >= 0 && (r.ra != nil || r.r != nil)
